@@ -248,6 +248,8 @@ func translate(node nodes.Node) (ast.Node, error) {
 			return &ast.AlterTypeAddValueStmt{
 				Type:               name,
 				NewValue:           n.NewVal,
+				NewValNeighbor:     n.NewValNeighbor,
+				NewValIsAfter:      n.NewValIsAfter,
 				SkipIfNewValExists: n.SkipIfNewValExists,
 			}, nil
 		}
